@@ -131,6 +131,7 @@ pub struct Rewriter<'a> {
     pub drop_fn: String,
     pub user_call_ret: Option<String>,
     pub user_call_try: bool,
+    pub user_call_sync: bool,
     /// fn name -> generic argument added to calls that have none (type information lost by R16 truncation)
     pub turbofish: HashMap<String, String>,
     /// receiver identifier -> (method -> new name): e.g. the result channel's `send`
@@ -584,6 +585,22 @@ impl<'a> VisitMut for Rewriter<'a> {
                         let f = &c.func;
                         let args = c.args.iter();
                         self.fired.push(format!("R6-user-call-{}", n));
+                        if self.user_call_sync {
+                            // a synchronous user callback (sequential iteration API): the call itself is the visit
+                            let nm = if c.args.len() == 1 { id("vx_user_visit1") } else { id("vx_user_visit") };
+                            let f2 = &c.func;
+                            let args2 = c.args.iter();
+                            let tf: TokenStream = match (&self.user_call_ret, c.args.len()) {
+                                (Some(r), 1) => { let t: Type = syn::parse_str(r).unwrap(); quote! { ::<_, _, #t> } }
+                                (Some(r), _) => { let t: Type = syn::parse_str(r).unwrap(); quote! { ::<_, _, _, #t> } }
+                                _ => quote! {},
+                            };
+                            let new: Expr = parse_quote! { #nm #tf(&mut #f2, #(#args2),*, Tracked(w)) };
+                            self.fired.push(format!("R6-user-visit-{}", n));
+                            *e = new;
+                            visit_mut::visit_expr_mut(self, e);
+                            return;
+                        }
                         let nm = match (c.args.len() == 1, self.user_call_try) {
                             (true, false) => id("vx_user_call1"),
                             (false, false) => id("vx_user_call"),
@@ -754,6 +771,7 @@ pub fn apply_all(block: &mut Block, item: &Value, fired: &mut Vec<String>, name:
         async_fns: list("async_fns"),
         user_call_ret: item.get("user_call_ret").and_then(|x| x.as_str()).map(String::from),
         user_call_try: item.get("user_call_try").and_then(|x| x.as_bool()).unwrap_or(false),
+        user_call_sync: item.get("user_call_sync").and_then(|x| x.as_bool()).unwrap_or(false),
         turbofish: item
             .get("turbofish")
             .and_then(|x| x.as_object())
